@@ -43,7 +43,18 @@ def pipeline(task):
         if layout == "top":
             w.dir(R + b"/vol1/.Trash", 0o1777)
         if layout == "custom":
-            opts["trashDir"] = R + b"/vol1/ct"
+            # the same directory under three spellings: plain, through a symbolic link that crosses the mount point, and
+            # through a link followed by '..' (the kernel follows the link before it goes up)
+            sp = rng.choice(["plain", "plain", "via-link", "link-dotdot"])
+            if sp == "via-link":
+                w.link(R + b"/to-vol1", rng.choice([R + b"/vol1", b"vol1"]))
+                opts["trashDir"] = R + b"/to-vol1/ct"
+            elif sp == "link-dotdot":
+                w.dir(R + b"/vol1/deep/inner")
+                w.link(R + b"/vol1/jump", R + b"/vol1/deep/inner")
+                opts["trashDir"] = R + b"/vol1/jump/../../ct"
+            else:
+                opts["trashDir"] = R + b"/vol1/ct"
     w.dir(d)
     kind = make_entry(rng, w, d, name, rng.choice(["file", "empty", "tree", "link-dangling"]) if len(name) > 200 else None)
     other = make_entry(rng, w, d, b"other-entry", "file")
